@@ -426,6 +426,14 @@ where
         value: impl Borrow<Self::Input>,
     ) -> (usize, Self::Output) {
         let value = *value.borrow();
+        // All elements are smaller than or equal to u: a larger value has the
+        // same (non-strict) predecessor as u, but its upper bits might index
+        // a zero that does not exist
+        let (value, strict) = if value > self.u {
+            (self.u, false)
+        } else {
+            (value, STRICT)
+        };
         let zeros_to_skip = value >> self.l;
         let mut bit_pos = self.high_bits.select_zero_unchecked(zeros_to_skip) - 1;
 
@@ -459,7 +467,7 @@ where
                 );
             }
 
-            if STRICT {
+            if strict {
                 if lower_bits < value & ((1 << self.l) - 1) {
                     return (rank, ((bit_pos - rank) << self.l) | lower_bits);
                 }
